@@ -157,6 +157,8 @@ pub enum Ev {
     AttemptStart { txid: usize, incarnation: usize, committed_idx: usize },
     AttemptEnd { txid: usize, incarnation: usize, kind: u32, new_write_locations: bool },
     ValidationEnd { txid: usize, incarnation: usize, ts: usize, conflict: bool },
+    RewindRequest { index: usize, by_tx: usize },
+    ValidationStart { txid: usize, incarnation: usize, ts: usize },
     Rewind { index: usize, ts: usize, previous: usize },
     Finality { txid: usize, incarnation: usize, unconfirmed_ts: usize, lower_ts: usize },
     FinalityRejected { txid: usize, unconfirmed_ts: usize, lower_ts: usize },
@@ -213,6 +215,8 @@ impl Ev {
             Ev::DepOnboard { .. } => 24,
             Ev::DepClaim { .. } => 25,
             Ev::DepBlocked { .. } => 26,
+            Ev::RewindRequest { .. } => 27,
+            Ev::ValidationStart { .. } => 28,
         }
     }
 }
@@ -229,6 +233,8 @@ fn own_event(e: Event<'_>) -> Ev {
             Ev::ValidationEnd { txid, incarnation, ts, conflict }
         }
         Event::Rewind { index, ts, previous } => Ev::Rewind { index, ts, previous },
+        Event::RewindRequest { index, by_tx } => Ev::RewindRequest { index, by_tx },
+        Event::ValidationStart { txid, incarnation, ts } => Ev::ValidationStart { txid, incarnation, ts },
         Event::Finality { txid, incarnation, unconfirmed_ts, lower_ts } => {
             Ev::Finality { txid, incarnation, unconfirmed_ts, lower_ts }
         }
@@ -602,6 +608,14 @@ impl Ctl {
                     if self.validated_ok.contains(&k) {
                         self.stale_validated.insert(k);
                     }
+                }
+            }
+            Ev::RewindRequest { index, .. } => {
+                // every successfully validated, not yet final transaction at or above the index is
+                // covered by this request, whatever the cursor position is
+                let covered: Vec<usize> = self.validated_ok.iter().copied().filter(|k| k >= index).collect();
+                for k in covered {
+                    self.stale_validated.insert(k);
                 }
             }
             _ => {}
